@@ -239,6 +239,8 @@ func main() {
 	}
 
 	id := 0
+	fatSize := 0
+	fatPkg := "" // the first package generated in this run; later cases are also regenerated over a copy of it
 	for _, sc := range cases {
 		id++
 		dir := filepath.Join(*work, fmt.Sprintf("s%d_%s", *seed, sc.name))
@@ -313,6 +315,33 @@ func main() {
 						_ = os.RemoveAll(filepath.Join(dir, "rel-out"))
 					}
 					_ = os.RemoveAll(filepath.Join(dir, "again"))
+					// regeneration into a directory that already holds a generated package (the first
+					// package of this run): every file the generator writes is what a fresh directory gets
+					size := 0
+					for _, h := range a {
+						size += len(h)
+					}
+					if fatPkg == "" {
+						fatPkg, fatSize = pkgDir, size
+					} else {
+						over := filepath.Join(dir, "over", "fixpkg")
+						must(copyDir(fatPkg, over))
+						if cl4, m4 := runFixgen(over, sx, tx, dir); cl4 != "ok" {
+							rec.Oracle["C12"] = "fail: generation into a directory that already holds a package failed: " + firstLine(m4)
+						} else {
+							c4, _ := dirDigest(over)
+							for name, h := range a {
+								if c4[name] != h {
+									rec.Oracle["C12"] = "fail: regenerated into a directory that already held a generated package, " + name + " differs from what a fresh directory gets"
+									break
+								}
+							}
+						}
+						_ = os.RemoveAll(filepath.Join(dir, "over"))
+						if size > fatSize { // keep the largest package seen: overwriting it shrinks most files
+							fatPkg, fatSize = pkgDir, size
+						}
+					}
 				}
 				if _, bad := rec.Oracle["C12"]; !bad {
 					rec.Oracle["C12"] = "ok"
@@ -384,6 +413,29 @@ func main() {
 		_ = os.RemoveAll(dir)
 		emit(rec)
 	}
+}
+
+func copyDir(from, to string) error {
+	if err := os.MkdirAll(to, 0o755); err != nil {
+		return err
+	}
+	ents, err := os.ReadDir(from)
+	if err != nil {
+		return err
+	}
+	for _, e := range ents {
+		if e.IsDir() || strings.HasPrefix(e.Name(), "zz_") {
+			continue
+		}
+		b, err := os.ReadFile(filepath.Join(from, e.Name()))
+		if err != nil {
+			return err
+		}
+		if err := os.WriteFile(filepath.Join(to, e.Name()), b, 0o644); err != nil {
+			return err
+		}
+	}
+	return nil
 }
 
 func firstLine(s string) string {
